@@ -1,3 +1,4 @@
+#include <algorithm>
 #include <cstring>
 
 #include <asam_cmp/decoder.h>
@@ -100,8 +101,10 @@ Decoder::SegmentedPacket::SegmentedPacket(
     , curMessageType(messageType)
     , curSegment(sequenceCounter)
 {
-    payload.resize(size);
-    memcpy(payload.data(), data, size);
+    // Keep the message header and the declared payload only, not whatever follows in the frame
+    const size_t segmentSize = std::min(size, sizeof(MessageHeader) + reinterpret_cast<const MessageHeader*>(data)->getPayloadLength());
+    payload.resize(segmentSize);
+    memcpy(payload.data(), data, segmentSize);
 }
 
 bool Decoder::SegmentedPacket::addSegment(
